@@ -43,6 +43,13 @@ def where_policy(cond, tr):
     if isinstance(cond, (sp.StrictLessThan, sp.LessThan)) and cond.lhs.is_number and abs(float(cond.lhs)) < 1e-9 and cond.rhs.is_nonnegative:
         tr.assumed.append("%s  (velocity is not exactly zero)" % cond)
         return True
+    # the complementary spellings of the same guard (`beta2 <= eps`, `eps >= beta2`): false on the assumed domain
+    if isinstance(cond, (sp.StrictLessThan, sp.LessThan)) and cond.rhs.is_number and abs(float(cond.rhs)) < 1e-9 and cond.lhs.is_nonnegative:
+        tr.assumed.append("not (%s)  (velocity is not exactly zero)" % cond)
+        return False
+    if isinstance(cond, (sp.StrictGreaterThan, sp.GreaterThan)) and cond.lhs.is_number and abs(float(cond.lhs)) < 1e-9 and cond.rhs.is_nonnegative:
+        tr.assumed.append("not (%s)  (velocity is not exactly zero)" % cond)
+        return False
     return None
 
 
@@ -224,6 +231,22 @@ def run(repo, chk, tier, parts=("dalitz", "boost", "helicity", "frame")):
         for i in range(4):
             for j in range(i + 1, 4):
                 oblige("E6-boost", "boost_matrix symmetric [%d,%d]" % (i, j), Mx[i, j], Mx[j, i], LV + "boost_matrix", "symmetric-%d%d" % (i, j))
+        # a particle at rest (zero velocity: the parent in its own frame, a daughter produced at threshold): the boost
+        # matrix is the identity - finite, no 0/0 from normalising the velocity
+        a0 = np.array([Ea, sp.Integer(0), sp.Integer(0), sp.Integer(0)], dtype=object)
+        M0 = call(LV + "boost_matrix", [a0])
+        if not (isinstance(M0, np.ndarray) and M0.shape == (4, 4)):
+            raise AnalysisError("boost_matrix(at rest) does not return a 4x4 matrix in the component model")
+        for i in range(4):
+            for j in range(4):
+                try:
+                    v_ = sp.simplify(sp.sympify(M0[i, j]))
+                except (TypeError, ValueError):
+                    v_ = sp.nan
+                ok_ = (not v_.has(sp.nan, sp.zoo, sp.oo)) and v_ == (1 if i == j else 0)
+                chk.oblige("E6-boost", "boost_matrix(at rest)[%d,%d] == %d" % (i, j, 1 if i == j else 0), ok_)
+                if not ok_:
+                    chk.violation("E6-boost", LV + "boost_matrix", "rest-%d%d" % (i, j), "boost_matrix of a four-vector at rest has the entry [%d,%d] = %s, expected %d: the matrix no longer agrees with the vector boost (the identity) for zero velocity - 0/0 from normalising the velocity" % (i, j, v_, 1 if i == j else 0), file="tf_pwa/angle.py", line=repo.fn(LV + "boost_matrix").lineno)
         rv = call(LV + "rest_vector", [a, p])
         bwd = call(B, [p, -beta])
         for k, nm in enumerate("TXYZ"):
